@@ -74,6 +74,11 @@ def recodeKV (kind : String) (items : List (Nat Ã— Bytes)) : Option (List (Nat Ã
     items.mapM (fun x => (Opt.unpackParam x.1 x.2).bind (fun q => (Opt.packParam q).map (fun d => (q.key, d))))
   else some items
 
+def recode (kind : String) (v : Val) : Option Val :=
+  match v with
+  | Val.kv items => (recodeKV kind items).map Val.kv
+  | v => some v
+
 def valueOK (kind : String) : Val â†’ Bool
   | .kv items =>
     if kind = "OPT" then (items.mapM (fun x => Opt.unpackOpt x.1 x.2)).isSome
@@ -188,22 +193,46 @@ def unpackMsg (msg : Bytes) : Option MsgM :=
             | none => some { m0 with question := qs.1, answer := an, ns := ns, err := true }
             | some (ex, _) =>
               some { m0 with question := qs.1, answer := an, ns := ns, extra := ex,
-                             rcode := joinRcode h.rcode ((extRcode ex).map id) }
+                             rcode := joinRcode h.rcode (extRcode ex) }
+
+/-- the plain encoding of a record: owner in wire form, the fixed header with the RDLENGTH of the body, the body -/
+def encodeRR (owner : Bytes) (typ cls ttl : Nat) (rd : Bytes) : Bytes :=
+  owner ++ (beBytes 2 typ ++ (beBytes 2 cls ++ (beBytes 4 ttl ++ (beBytes 2 rd.length ++ rd))))
 
 /-- the octets `PackRR(rr, buf, 0, nil, false)` writes for a decoded record: owner, fixed header with the recomputed
-    RDLENGTH, body; `none` = the packer refuses the record -/
+    RDLENGTH, body; a record decoded without RDATA holds the zero value of every field, and those are packed
+    (RFC 2136 records grow a body, finding F7); `none` = the packer refuses the record -/
 def repackRR (r : RRm) : Option Bytes :=
-  match r.body, packName r.name with
-  | some vals, .ok owner =>
-    (match Gen.unpackCodecs.lookup r.kind with
-     | some plan =>
-       ((vals.mapM (fun (v : Val) => match v with
-          | Val.kv items => (recodeKV r.kind items).map Val.kv
-          | v => some v)).bind (packPlan (stripPlan plan))).bind (fun rd =>
-         if rd.length < 65536 then
-           some (owner ++ (beBytes 2 r.typ ++ (beBytes 2 r.cls ++ (beBytes 4 r.ttl ++ (beBytes 2 rd.length ++ rd)))))
-         else none)
-     | none => none)
+  match packName r.name, Gen.unpackCodecs.lookup r.kind with
+  | .ok owner, some plan =>
+    let vals := match r.body with
+      | some vals => vals
+      | none => plan.filterMap zeroVal
+    ((vals.mapM (recode r.kind)).bind (packPlan (stripPlan plan))).bind (fun rd =>
+      if rd.length < 65536 then some (encodeRR owner r.typ r.cls r.ttl rd) else none)
   | _, _ => none
+
+def encodeQ (q : Qm) : Option Bytes :=
+  match packName q.name with
+  | .ok w => some (w ++ (beBytes 2 q.typ ++ beBytes 2 q.cls))
+  | _ => none
+
+def concatAll : List (Option Bytes) â†’ Option Bytes
+  | [] => some []
+  | x :: xs => match x, concatAll xs with
+    | some a, some r => some (a ++ r)
+    | _, _ => none
+
+/-- `Msg.Pack` with `Compress = false` on a decoded message: the header word from the flags and the low RCODE nibble,
+    the true counts, questions and records one after the other (the last OPT record already carries the upper RCODE
+    bits the decoder merged in) -/
+def packMsgPlain (m : MsgM) : Option Bytes :=
+  if m.rcode > 0xFFF then none
+  else if m.rcode > 0xF âˆ§ (extRcode m.extra).isNone then none
+  else
+    let bits := (packBits { m.hdr with rcode := m.rcode }).toNat
+    (concatAll (m.question.map encodeQ ++ (m.answer.map repackRR ++ (m.ns.map repackRR ++ m.extra.map repackRR)))).map
+      (fun body => beBytes 2 m.id ++ (beBytes 2 bits ++ (beBytes 2 m.question.length ++ (beBytes 2 m.answer.length ++
+        (beBytes 2 m.ns.length ++ (beBytes 2 m.extra.length ++ body))))))
 
 end Dns.MU
